@@ -19,16 +19,21 @@ func init() {
 		ID:        "C45",
 		Patterns:  []string{"./sql/sqlredact"},
 		Thorough:  []string{"./sql/sqlredact"},
-		Technique: "interprocedural taint over go/ssa (sources: lexer token text, exported text parameters; sanitizers: Mapping.Redact*; sinks: output-builder writes) + CFG must-pass-through + constant sets read from the lexer's return sites",
+		Technique: "interprocedural taint over go/ssa (sources: lexer token text, exported text parameters; sanitizers: Mapping.Redact*; sinks: output-builder writes) + CFG must-pass-through + constant sets read from the lexer's return sites + mode-field/call-closure classification of the lexer package's parse entry points",
 		Explanation: "Trace redaction never leaks identifiers or literals — structural clauses over package sqlredact. (T1) every write to a strings.Builder in the package writes untainted bytes " +
 			"(constants, the token type, entries of constant tables, results of Mapping.RedactIdent/RedactValue), except the raw token text in exactly two places: the placeholder arm (VALUE_ARG/LIST_ARG) of " +
 			"emitToken, and emitStructural, which is called only from emitToken's default arm after the identifier-set lookup on that text missed (or the text is empty). (T2) emitToken has an explicit, " +
 			"redacting arm for every token type with which the pinned vitess lexer returns user-derived text (the set is read from the return sites of Tokenizer.Scan and its scan* helpers: named token " +
 			"constants returned with a non-constant value outside the keyword-table branch), or the token is dropped/aborted before emitToken (COMMENT, LEX_ERROR). (T3) every return with a non-nil error " +
 			"returns the constant UnparseableMarker as the text. (T4) Mapping.RedactIdent/RedactValue return only a map hit, a freshly minted prefix+Itoa(counter) token, or the original under the " +
-			"documented nil/empty guard; the maps only ever receive minted tokens; minting happens under the write lock after the re-check; the two namespaces use distinct maps, counters and prefixes.",
+			"documented nil/empty guard; the maps only ever receive minted tokens; minting happens under the write lock after the re-check; the two namespaces use distinct maps, counters and prefixes. " +
+			"(T6) coverage agreement of the two passes: the function that walks the text with Tokenizer.Scan builds its identifier set, once, from the statement returned by exactly one parse call of the lexer package, and that parse covers exactly the walked text: " +
+			"either the callee is a whole-input parser — decided from the lexer package's source: Scan returns token 0 before the end of its buffer only under the tokenizer's early-end mode fields (read from Scan's `return 0, …` sites and closed over the fields under whose test such a field is set), " +
+			"no function in the callee's static call closure switches such a field on, and its text parameter reaches a tokenizer constructor unchanged — and it receives the same, unmodified text variable as the tokenizer's constructor; " +
+			"or it is a prefix parser whose remainder-position result is bound to a variable that bounds the tokenizer's input (text[:rem]) or is compared with len(text) on every path to a nil-error return (otherwise identifiers after the parsed prefix miss the set and trailing unparseable text does not yield the marker: an unchecked error source in the sense of T3).",
 		NotCovered: "keyword-typed tokens that carry customer text in AST fields other than TableIdent/ColIdent (e.g. a savepoint or account name spelled like a non-reserved keyword), bind-variable names " +
-			"(pass through by design), preservation of the token structure, behaviour of the vitess parser/lexer themselves",
+			"(pass through by design), preservation of the token structure, behaviour of the vitess parser/lexer themselves (T6 trusts that the generated parser accepts only at token 0 and reads only the tokenizer's mode fields; " +
+			"what the branch taken after a remainder comparison does is not evaluated; tokenizer option differences between the parser's and the redactor's tokenizer, e.g. ANSI quotes, are not compared)",
 		Run: func(c *Ctx) {
 			runC45(c, c45Cfg{rel: "sql/sqlredact", emitToken: "emitToken", structural: "emitStructural", marker: "UnparseableMarker", mapping: "Mapping",
 				redactors: []string{"RedactIdent", "RedactValue"}, lexerPkg: "github.com/dolthub/vitess/go/vt/sqlparser", lexerType: "Tokenizer",
@@ -148,6 +153,9 @@ func runC45(c *Ctx, cf c45Cfg) {
 	t.ruleT2(lex)
 	t.ruleT3()
 	t.ruleT4()
+	if !c.fixtureMode {
+		t.ruleT6(lex, 3)
+	}
 }
 
 // ---- taint
